@@ -329,6 +329,140 @@ fn fault_section(shard: Shard, rep: &mut Report) {
     }
 }
 
+/// A populate callback that fails (before writing anything, or after the first of several writes,
+/// with NotFound or another error) must never lead to an empty or cut file under the key: the
+/// state invariant after every call, the handle the operation returns, the final tree and a
+/// lookup through a fresh handle are all checked, with no second participant and no fault.
+fn failing_populate_section(shard: Shard, rep: &mut Report) {
+    use crate::ops::{Act, Checker};
+    use crate::props::c18::FailAt;
+    use crate::props::scn::{self, Scn};
+    use crate::shim::{Action, Controller};
+    use std::sync::atomic::AtomicU64;
+    use std::sync::Mutex;
+    struct Watch {
+        pass: FailAt,
+        inv: Invariant,
+        hits: Mutex<Vec<String>>,
+    }
+    impl Controller for Watch {
+        fn before(&self, ev: &Ev) -> Action {
+            self.pass.before(ev)
+        }
+        fn after(&self, ev: &Ev) {
+            if let Some(m) = (self.inv)(ev) {
+                self.hits.lock().unwrap().push(m);
+            }
+        }
+    }
+    let mut w: BTreeMap<String, Vec<Val>> = BTreeMap::new();
+    for name in ["key", "key2", "e0", "e1", "e2", "e3", "maint", "maint2"] {
+        w.insert(name.to_string(), scn::allowed_values(name));
+    }
+    let w = Arc::new(w);
+    let big = scn::v_new_chunks();
+    let pops = [Pop::NotFound, Pop::OtherErr, Pop::PartialNotFound(big), Pop::PartialErr(big), Pop::PartialNotFound(Val::new(1, Size::Five)), Pop::PartialErr(Val::new(5, Size::One))];
+    let mut no = 0u64;
+    for front in scn::FRONTS {
+        for pre in ["missing", "empty", "present", "crowd+present", "debris"] {
+            for keyi in 0..2 {
+                for opk in 0..4 {
+                    for pop in pops {
+                        for checker in [Checker::None, Checker::ByteEq] {
+                            no += 1;
+                            if !shard.mine(no) {
+                                continue;
+                            }
+                            let scn = Scn { front: front.into(), pre: pre.into(), op: "ensure".into() };
+                            let mut world = scn::setup(&scn);
+                            // "key" is held by the read-only level of the stacked front-end; "key2" is absent everywhere
+                            let key = if keyi == 0 { scn::the_key() } else { scn::second_key() };
+                            world.op = match opk {
+                                0 => Op::Ensure(key.clone(), pop),
+                                1 => Op::Gou(key.clone(), Act::Accept, pop),
+                                2 => Op::Gou(key.clone(), Act::Promote, pop),
+                                _ => Op::Gou(key.clone(), Act::Replace, pop),
+                            };
+                            world.cfg.checker = checker;
+                            let label = format!("{} {} {} checker={:?}", front, pre, world.op.label(), checker);
+                            let cache = world.cache();
+                            let force = world.force_maintenance;
+                            let ctl = Arc::new(Watch {
+                                pass: FailAt { faults: vec![], kinds: vec![], n: AtomicU64::new(0), hit: Mutex::new(vec![]) },
+                                inv: invariant(w.clone()),
+                                hits: Mutex::new(vec![]),
+                            });
+                            crate::shim::set_controller(Some(ctl.clone() as Arc<dyn Controller>));
+                            let (out, t) = crate::run::as_participant(0, 0, || {
+                                if force {
+                                    crate::run::trigger_fire_next(u64::MAX);
+                                } else {
+                                    crate::run::trigger_never();
+                                }
+                                crate::ops::exec(&cache, &world.dirs, &world.op, &Default::default())
+                            });
+                            crate::shim::set_controller(None);
+                            rep.evaluations += 1;
+                            rep.states += 1;
+                            rep.traces += 1;
+                            rep.transitions += t.len() as u64;
+                            rep.count("failing_populate_cases", 1);
+                            let mut bad: Vec<(String, String)> = Vec::new();
+                            if let Some(m) = ctl.hits.lock().unwrap().first() {
+                                bad.push(("published-corrupt".into(), m.clone()));
+                            }
+                            let complete = |bytes: &[u8], name: &str| match (world::identify(bytes), w.get(name)) {
+                                (Some(v), Some(vals)) => vals.contains(&v),
+                                _ => false,
+                            };
+                            match &out {
+                                Ok(o) => match &o.res {
+                                    Res::Hit(bytes) if !complete(bytes, &key.name) => {
+                                        bad.push(("foreign-or-partial-read".into(), format!("the returned handle read {}", world::describe_bytes(bytes))))
+                                    }
+                                    Res::Panic(p) => bad.push(("panic".into(), p.clone())),
+                                    _ => {}
+                                },
+                                Err(p) => bad.push(("panic".into(), p.clone())),
+                            }
+                            let snap = world.snapshot();
+                            for (k, n) in &snap {
+                                if n.kind != 'f' || !k.starts_with("w/") || k.contains(".kismet_temp") {
+                                    continue;
+                                }
+                                let name = Path::new(k).file_name().unwrap().to_string_lossy().into_owned();
+                                if name.starts_with('.') {
+                                    continue;
+                                }
+                                if !complete(n.content.as_deref().unwrap_or(&[]), &name) {
+                                    bad.push(("final-corrupt".into(), format!("{} ends up holding {}", k, world::describe_bytes(n.content.as_deref().unwrap_or(&[])))));
+                                }
+                            }
+                            // any later reader, through its own handle
+                            let fresh = world.cache();
+                            let (later, t2) = crate::run::as_participant(0, 1, || {
+                                crate::run::trigger_never();
+                                crate::ops::exec(&fresh, &world.dirs, &Op::Get(key.clone()), &Default::default())
+                            });
+                            rep.transitions += t2.len() as u64;
+                            if let Ok(o) = &later {
+                                if let Res::Hit(bytes) = &o.res {
+                                    if !complete(bytes, &key.name) {
+                                        bad.push(("foreign-or-partial-read".into(), format!("a later get through a fresh handle read {}", world::describe_bytes(bytes))));
+                                    }
+                                }
+                            }
+                            for (sig, msg) in bad {
+                                rep.violation(format!("content:{}-after-failed-populate", sig), format!("{}: {}", label, msg), serde_json::json!({"failing_populate_section": true}));
+                            }
+                        }
+                    }
+                }
+            }
+        }
+    }
+}
+
 pub fn run(tier: Tier, shard: Shard, rep: &mut Report) {
     rep.rule = "curated programs of 2-3 participants x 1-2 operations from {set, put, set_temp_file, ensure, get_or_update->Replace, \
         get+read-to-end, touch} over two keys with writer-distinct values (1 B, 5 B and 3 x 8 KiB written by three write calls), \
@@ -338,8 +472,11 @@ pub fn run(tier: Tier, shard: Shard, rep: &mut Report) {
         classic pairs). Oracle: bytes read from every returned handle are exactly one value written for that key; after every rename, \
         link, write, copy or truncate event every key-named file visible in a cache directory holds a complete value for its name; \
         same at the end. The same state invariant is also evaluated after every call of every write scenario of the C02 table with \
-        each single I/O fault injected (a torn publication on an error path is visible without any second participant). \
-        Non-trivial = execution with >= 1 preemption."
+        each single I/O fault injected (a torn publication on an error path is visible without any second participant), and, \
+        fault-free, for ensure and get_or_update x {Accept, Promote, Replace} whose populate callback fails (NotFound or another error, \
+        before writing or after the first write) x 3 front-ends x 5 pre-states x {key held by a read-only level, key absent everywhere} \
+        x {no checker, byte-equality checker}: the returned handle, every intermediate state, the final tree and a later lookup \
+        through a fresh handle never show an empty or cut value. Non-trivial = execution with >= 1 preemption."
         .into();
     rep.assumptions = vec![
         "threads with own handles stand in for processes; sequentially consistent interleaving of whole system calls".into(),
@@ -354,10 +491,15 @@ pub fn run(tier: Tier, shard: Shard, rep: &mut Report) {
     e1::explore_all("C01", &progs, shard, rep, &mk, &mut chk, cap);
     crate::run::reset_env();
     fault_section(shard, rep);
+    failing_populate_section(shard, rep);
     rep.count("invariant_file_checks", INVARIANT_FILE_CHECKS.load(std::sync::atomic::Ordering::Relaxed));
 }
 
 pub fn replay(case: &Value, rep: &mut Report) {
+    if case.get("failing_populate_section").is_some() {
+        failing_populate_section(Shard { index: 0, count: 1 }, rep);
+        return;
+    }
     if case.get("fault_section").is_some() {
         fault_section(Shard { index: 0, count: 1 }, rep);
         return;
